@@ -786,7 +786,7 @@ func (w *gw) catalogue(c gCatalogue) {
 const genHeader = "(* GENERATED by `vharness translate` (harness/gen_regimes.go) - do not edit, not committed. *)\n" +
 	"From Coq Require Import List ZArith Strings.Byte.\n" +
 	"From Verif Require Import Base.Wire Defs.DefTypes.\n" +
-	"Import ListNotations.\nOpen Scope Z_scope.\nOpen Scope bs_scope.\n\n"
+	"Import ListNotations.\n#[local] Open Scope Z_scope.\n#[local] Open Scope bs_scope.\n\n"
 
 // ident turns a file name into a Gallina identifier suffix.
 func ident(s string) string {
